@@ -31,5 +31,22 @@ int main(int argc, char** argv) {
 	vh::registerCheck<pg::ProgCase>("rcp_noop", [] { return pg::genProgCase({0, 0, 0, 0, 0, 0, 1}, 90); }, body, true, minimizer);
 	vh::registerCheck<pg::ProgCase>("branchy", [] { return pg::genProgCase({0, 0, 1, 0, 0, 0, 0}, 90); }, body, true, minimizer);
 	vh::registerCheck<pg::ProgCase>("adversarial", [] { return pg::genProgCase({0, 4, 1, 3, 0, 2, 0}, 70); }, body, true, minimizer);
+	// writes seed inputs for the libFuzzer target (fuzz/corpus/jit): one program per shape and version
+	vh::Sub d; d.name = "dump_corpus";
+	d.runGen = [](int, int, uint64_t) -> bool {
+		for (int shape = 0; shape < pg::NSHAPES; ++shape) for (int k = 0; k < 3; ++k) {
+			std::vector<uint8_t> buf(pg::ProgramBytes);
+			pg::expand(buf.data(), shape, 1000 + 7 * shape + k, (shape * 5 + k * 11) % pg::NTYPES, {});
+			uint16_t ctl = (uint16_t)((k & 1) | ((shape & 1) << 1) | (1 << 3) | ((k & 3) << 6) | ((shape % 5) << 8));
+			uint64_t spadSeed = 0x1234567 * (shape + 1) + k;
+			for (int i = 7; i >= 0; --i) buf.push_back((uint8_t)(spadSeed >> (8 * i)));   // taken from the end, most significant byte last
+			buf.push_back((uint8_t)(ctl & 0xff)); buf.push_back((uint8_t)(ctl >> 8));
+			char fn[256]; snprintf(fn, sizeof fn, "fuzz/corpus/jit/%s-%d", pg::shapeName(shape), k);
+			FILE* f = fopen(fn, "wb"); if (f) { fwrite(buf.data(), 1, buf.size(), f); fclose(f); }
+		}
+		return true;
+	};
+	d.runReplay = [](const vh::KV&) -> std::string { return ""; };
+	vh::registry().push_back(d);
 	return vh::harnessMain(argc, argv, [] { env.init(true); });
 }
